@@ -22,25 +22,26 @@
 (***************************************************************************)
 EXTENDS Integers, Sequences, FiniteSets, FiniteSetsExt, TLC, Json
 
-CONSTANTS Mode, MaxLen, AsImplemented
+CONSTANTS Mode, MaxLen, AsImplemented,
+          Catalog      \* the shape names that may be added in this run (subset of ShapeNames)
 
 \* ------------------------------------------------------------- the scene
-ShapeNames == {"S1", "S2", "S3"}
-NumEdgesOf == [S1 |-> 4, S2 |-> 40, S3 |-> 8]   \* S2 puts the index above the brute-force size
+ShapeNames == {"S1", "S2", "S3", "SF"}             \* SF: the full polygon (interior, no edges)
+NumEdgesOf == [S1 |-> 4, S2 |-> 40, S3 |-> 8, SF |-> 0]   \* S2 puts the index above the brute-force size
 Points == {"P0", "P1", "P2", "P3"}              \* Pk = centre of Sk, P0 outside everything
-CentreOf == [S1 |-> "P1", S2 |-> "P2", S3 |-> "P3"]
+CentreOf == [S1 |-> "P1", S2 |-> "P2", S3 |-> "P3", SF |-> "*"]    \* SF contains every point
 QEdges == {"E1", "E2", "E3"}                    \* Ek passes straight through Sk (2 crossings)
 CrossedBy == [E1 |-> "S1", E2 |-> "S2", E3 |-> "S3"]
 Inf == 1000000
 BruteForceLimit == 30
 
 RangeOf(s) == {s[i] : i \in DOMAIN s}
-TotalEdges(present) == SumSet({NumEdgesOf[s] * 1000 + (IF s = "S1" THEN 1 ELSE IF s = "S2" THEN 2 ELSE 3) : s \in present}) \div 1000
+TotalEdges(present) == SumSet({NumEdgesOf[s] * 1000 + (IF s = "S1" THEN 1 ELSE IF s = "S2" THEN 2 ELSE IF s = "S3" THEN 3 ELSE 4) : s \in present}) \div 1000
 Min2(a, b) == IF a < b THEN a ELSE b
 
 \* ------------------------------------------------------------- variables
 VARIABLES
-    shapes,     \* sequence of shape names held by the index (id = position - 1)
+    shapes,     \* sequence of shape names in id order (id = position - 1); "-" = removed
     nextID, pendPos, status, indexed,   \* ShapeIndex bookkeeping; indexed = ids in the cell map
     epoch,      \* incremented by every mutation of the index
     cpq, ceq,   \* epoch at which the ContainsPointQuery / CrossingEdgeQuery was created, -1 = none
@@ -50,28 +51,30 @@ VARIABLES
     h           \* history
 vars == <<shapes, nextID, pendPos, status, indexed, epoch, cpq, ceq, eff, inv, lidx, h>>
 
-Present == RangeOf(shapes)
+Live == {i \in 1..Len(shapes) : shapes[i] # "-"}
+LiveIds == {i - 1 : i \in Live}
+Present == {shapes[i] : i \in Live}
+NumLive == Cardinality(Live)
 
-St == [status |-> status, pend |-> pendPos, next |-> nextID, n |-> Len(shapes),
+St == [status |-> status, pend |-> pendPos, next |-> nextID, n |-> NumLive,
        indexed |-> indexed]
 Log(e) == Append(h, e)
 
 \* pending updates are applied by every operation that touches the cell map
-Applied == [st |-> "fresh", pend |-> nextID, idx |-> 0 .. (Len(shapes) - 1)]
 
 \* ===================================================================== index
 Add(s) ==
-    /\ s \notin Present
+    /\ s \in Catalog /\ s \notin Present
     /\ shapes' = Append(shapes, s) /\ nextID' = nextID + 1 /\ status' = "stale"
     /\ epoch' = epoch + 1
     /\ UNCHANGED <<pendPos, indexed, cpq, ceq, eff, inv, lidx>>
     /\ h' = Log([a |-> "Add", x |-> s, r |-> "-",
-                 st |-> [status |-> "stale", pend |-> pendPos, next |-> nextID + 1, n |-> Len(shapes) + 1, indexed |-> indexed]])
+                 st |-> [status |-> "stale", pend |-> pendPos, next |-> nextID + 1, n |-> NumLive + 1, indexed |-> indexed]])
 
 MaybeApplyVars ==
-    /\ status' = "fresh" /\ pendPos' = nextID /\ indexed' = 0 .. (Len(shapes) - 1)
-StAfterApply == [status |-> "fresh", pend |-> nextID, next |-> nextID, n |-> Len(shapes),
-                 indexed |-> 0 .. (Len(shapes) - 1)]
+    /\ status' = "fresh" /\ pendPos' = nextID /\ indexed' = LiveIds
+StAfterApply == [status |-> "fresh", pend |-> nextID, next |-> nextID, n |-> NumLive,
+                 indexed |-> LiveIds]
 
 Build ==
     /\ MaybeApplyVars
@@ -86,6 +89,21 @@ Reset ==
     /\ h' = Log([a |-> "Reset", x |-> "-", r |-> "-",
                  st |-> [status |-> "fresh", pend |-> 0, next |-> 0, n |-> 0, indexed |-> {}]])
 
+\* Remove deletes the shape at once; if its edges are already in the cell map the removal is
+\* queued and the index becomes stale (the cell map still lists the shape until the next update).
+PosOf(s) == CHOOSE i \in Live : shapes[i] = s
+Remove(s) ==
+    /\ s \in Present
+    /\ LET i == PosOf(s)
+           queued == (i - 1) < pendPos
+       IN  /\ shapes' = [shapes EXCEPT ![i] = "-"]
+           /\ status' = IF queued THEN "stale" ELSE status
+           /\ epoch' = epoch + 1
+           /\ UNCHANGED <<nextID, pendPos, indexed, cpq, ceq, eff, inv, lidx>>
+           /\ h' = Log([a |-> "Remove", x |-> s, r |-> "-",
+                        st |-> [status |-> IF queued THEN "stale" ELSE status, pend |-> pendPos, next |-> nextID,
+                                n |-> NumLive - 1, indexed |-> indexed]])
+
 NewCPQ ==
     /\ MaybeApplyVars /\ cpq' = epoch
     /\ UNCHANGED <<shapes, nextID, epoch, ceq, eff, inv, lidx>>
@@ -96,7 +114,7 @@ NewCEQ ==
     /\ h' = Log([a |-> "NewCEQ", x |-> "-", r |-> "-", st |-> StAfterApply])
 
 \* the answers: functions of the shapes currently held only
-ContainsAns(p) == {s \in Present : CentreOf[s] = p}
+ContainsAns(p) == {s \in Present : s = "SF" \/ CentreOf[s] = p}
 CrossAns(e) == IF CrossedBy[e] \in Present THEN 2 ELSE 0
 FindAllAns == TotalEdges(Present)
 
@@ -121,7 +139,7 @@ FindAll(p) ==
                  st |-> IF TotalEdges(Present) > BruteForceLimit THEN StAfterApply ELSE St])
 
 IndexNext ==
-    \/ \E s \in ShapeNames : Add(s)
+    \/ \E s \in ShapeNames : Add(s) \/ Remove(s)
     \/ Build \/ Reset \/ NewCPQ \/ NewCEQ
     \/ \E p \in Points : Contains(p)
     \/ \E e \in QEdges : Cross(e)
@@ -224,7 +242,7 @@ Next ==
 
 \* ---- the property, as invariants of the specification ------------------------
 \* (1) bookkeeping: whenever the index is fresh, exactly the shapes held are indexed
-FreshMeansComplete == status = "fresh" => (indexed = 0 .. (Len(shapes) - 1) /\ pendPos = nextID)
+FreshMeansComplete == status = "fresh" => (indexed = LiveIds /\ pendPos = nextID)
 \* (2) every logged answer is the function of the current abstract state: for the
 \*     correct specification this holds by construction; on the AsImplemented variant
 \*     TLC reports the shortest history where the implementation's answer differs.
